@@ -1,6 +1,6 @@
 (* Check/IoCheck.v -- correspondence and oracles for C01-C04 (TextGrid text I/O). *)
 From Coq Require Import String.
-From PraatIO Require Export Check.Common IO.IoModel IO.PrepSpec IO.DupNames IO.CodecProofs IO.ShortFileProofs.
+From PraatIO Require Export Check.Common IO.IoModel IO.PrepSpec IO.DupNames IO.CodecProofs IO.ShortFileProofs IO.LongFileProofs.
 Open Scope Z_scope.
 
 (* as the source stands: point marks are un-doubled by the long-form reader *)
@@ -336,7 +336,8 @@ Definition C03oracle (c : IOcase) : bool :=
 
 Definition IOtrue (c : IOcase) : bool := true.
 
-(* is a written short-form file inside the hypotheses of the whole-file theorem C01_short_file_roundtrip? *)
+(* is a written short-form / long-form file inside the hypotheses of the whole-file theorems
+   C01_short_file_roundtrip / C01_long_file_roundtrip? *)
 Definition C01hyp (c : IOcase) : bool :=
   match c with
   | SaveText false b mn mx th tab g _ =>
@@ -344,6 +345,11 @@ Definition C01hyp (c : IOcase) : bool :=
       | Ok g' => negb (match dg_tiers g' with [] => true | _ => false end) && chunk_ok tab g'
                  && forallb (tier_ok tab) (dg_tiers g')
                  && plain_tok (num_str (lookup tab (dg_xmin g'))) && plain_tok (num_str (lookup tab (dg_xmax g')))
+      | Err _ => true
+      end
+  | SaveText true b mn mx th tab g _ =>
+      match prep_tg b mn mx th g with
+      | Ok g' => lfile_ok tab g' && forallb (fun c => negb (c =? 13)%N) (print_long tab g')
       | Err _ => true
       end
   | _ => true
